@@ -58,7 +58,9 @@ fn single_line_comment_p() -> impl Parser<StringView, Output = Statements, Error
 }
 
 fn single_line_else_p() -> impl Parser<StringView, Output = Statements, Error = ParserError> {
-    lead_ws(keyword(Keyword::Else))
+    // the whitespace before ELSE may already be consumed,
+    // e.g. by the trailing separator of `PRINT x; ELSE ...`
+    lead_opt_ws(keyword(Keyword::Else))
         .and_keep_right(single_line_statements_p().or_expected("Statements for single line ELSE"))
 }
 
